@@ -30,6 +30,7 @@ import (
 	"seehuhn.de/go/sfnt/os2"
 
 	"verif/harness/internal/ref/glyfref"
+	"verif/harness/internal/ref/tabread"
 )
 
 // Opts selects what kind of font is drawn.
@@ -37,7 +38,7 @@ type Opts struct {
 	Kind        string // "glyf", "cff", "cid", or "" for a random choice
 	MinGlyphs   int
 	MaxGlyphs   int    // 0 = 40
-	CMap        string // "none", "4", "12", "both", "legacy" or "" random
+	CMap        string // "none", "4", "12", "both", "legacy", "mac" or "" random
 	Layout      string // "none", "subset" (GSUB 1.1/4.1 + GPOS 2.1, no GDEF), "" = none
 	NoNames     bool   // TrueType: Names == nil / CFF: names still needed (unique)
 	Plain       bool   // header fields in normal form only (no rule-exercising values)
@@ -162,11 +163,50 @@ func Font(r *rand.Rand, o Opts) (*sfnt.Font, *Info) {
 	// character map: choose code points for glyphs
 	cmKind := o.CMap
 	if cmKind == "" {
-		cmKind = []string{"none", "4", "4", "12", "both", "legacy"}[r.IntN(6)]
+		cmKind = []string{"none", "4", "4", "12", "both", "legacy", "4", "mac"}[r.IntN(8)]
 	}
 	info.CMap = cmKind
 	codes := map[rune]glyph.ID{}
-	if cmKind != "none" && n > 1 {
+	var macData []byte
+	if cmKind == "mac" {
+		// the only subtable is (1,0): Mac Roman codes, format 0 or 6, written
+		// from the specification; the runes are those of the Mac Roman table
+		macCodes := map[int]glyph.ID{}
+		for gid := 1; gid < n; gid++ {
+			if r.IntN(6) == 0 {
+				continue
+			}
+			code := 0x20 + r.IntN(0xE0)
+			if r.IntN(2) == 0 {
+				code = 0x80 + r.IntN(0x80)
+			}
+			if _, used := macCodes[code]; !used && code != 0x7F {
+				macCodes[code] = glyph.ID(gid)
+				codes[tabread.MacRomanRune(byte(code))] = glyph.ID(gid)
+			}
+		}
+		lo, hi := 256, -1
+		for code := 0; code < 256; code++ {
+			if _, ok := macCodes[code]; ok {
+				lo, hi = min(lo, code), max(hi, code)
+			}
+		}
+		if n <= 256 && r.IntN(2) == 0 || hi < 0 {
+			info.Classes = append(info.Classes, "cmap:mac-format0")
+			macData = append(macData, 0, 0, 1, 6, 0, 0)
+			for code := 0; code < 256; code++ {
+				macData = append(macData, byte(macCodes[code]))
+			}
+		} else {
+			info.Classes = append(info.Classes, "cmap:mac-format6")
+			cnt := hi - lo + 1
+			l := 10 + 2*cnt
+			macData = append(macData, 0, 6, byte(l>>8), byte(l), 0, 0, byte(lo>>8), byte(lo), byte(cnt>>8), byte(cnt))
+			for code := lo; code <= hi; code++ {
+				macData = append(macData, byte(macCodes[code]>>8), byte(macCodes[code]))
+			}
+		}
+	} else if cmKind != "none" && n > 1 {
 		pool := []rune{'H', 'x', 'A', 'B', 'f', 'i', 'l', ' ', 0xfb00, 0xfb01, 0xfb02, 0xfb03, 0xfb04}
 		for gid := 1; gid < n; gid++ {
 			if r.IntN(6) == 0 {
@@ -210,6 +250,8 @@ func Font(r *rand.Rand, o Opts) (*sfnt.Font, *Info) {
 	switch cmKind {
 	case "none":
 		f.CMapTable = nil
+	case "mac":
+		f.CMapTable = cmap.Table{{PlatformID: 1, EncodingID: 0}: macData}
 	case "4", "legacy":
 		m := cmap.Format4{}
 		for c, g := range codes {
